@@ -28,9 +28,15 @@ RECURSIVE Pow2(_)
 Pow2(k) == IF k = 0 THEN 1 ELSE 2 * Pow2(k - 1)
 Pad(n, w) == LET s == ToString(n) IN
              IF Len(s) >= w THEN s ELSE SubSeq("000000000", 1, w - Len(s)) \o s
-\* exact decimal text of the dyadic n/2^k, k <= 6 (six fractional digits are exact: 10^6 / 2^6 integral)
-DecStr(d) == LET n == d[1]  k == d[2]  a == IF n < 0 THEN -n ELSE n  m == a * (1000000 \div Pow2(k))
-             IN (IF n < 0 THEN "-" ELSE "") \o ToString(m \div 1000000) \o "." \o Pad(m % 1000000, 6)
+\* exact decimal text of the dyadic n/2^k, k <= 6 (six fractional digits are exact: 10^6 / 2^6 integral);
+\* a negative k denotes the decimal fraction n/10^(-k), written with -k fractional digits (window files carry values such
+\* as 0.1 or 0.285714 that no binary float holds exactly: a reader must return the double nearest to the decimal)
+Pow10(e) == IF e = 0 THEN 1 ELSE IF e = 1 THEN 10 ELSE IF e = 2 THEN 100 ELSE IF e = 3 THEN 1000 ELSE IF e = 4 THEN 10000
+            ELSE IF e = 5 THEN 100000 ELSE 1000000
+DecStr(d) == LET n == d[1]  k == d[2]  a == IF n < 0 THEN -n ELSE n IN
+             IF k >= 0 THEN LET m == a * (1000000 \div Pow2(k))
+                            IN (IF n < 0 THEN "-" ELSE "") \o ToString(m \div 1000000) \o "." \o Pad(m % 1000000, 6)
+             ELSE (IF n < 0 THEN "-" ELSE "") \o ToString(a \div Pow10(-k)) \o "." \o Pad(a % Pow10(-k), -k)
 
 \* ---------- tree / question text
 Q(s) == "\"" \o s \o "\""
